@@ -77,6 +77,13 @@ def unary_pairs(props):
     p0 = ('prop', props[0])
     return [(a, (b, p0)) for a in UN for b in UN]
 
+def temporal_over_binders(props):
+    """a unary temporal operator applied directly to a binder whose body looks at the state only through jumps"""
+    p1 = ('prop', props[-1]); X, XX = ('var', 'x'), ('var', 'xx')
+    bodies = [('bind', 'x', None, ('jump', 'x', ('AX', X))), ('bind', 'x', None, ('exists', 'xx', None, ('and', ('jump', 'x', ('EX', XX)), ('jump', 'xx', p1)))),
+              ('bind', 'x', None, ('jump', 'x', ('EF', ('and', X, p1)))), ('exists', 'x', None, ('jump', 'x', ('EX', p1)))]
+    return [(u, b) for u in ('EX', 'AX', 'EF', 'AF', 'EG', 'AG') for b in bodies]
+
 def swapped_duplicates():
     """sub-formulas with two free variables that are equal up to a swap of the variables (plain, <= 3 nested variables)"""
     X, XX, XXX = ('var', 'x'), ('var', 'xx'), ('var', 'xxx')
